@@ -250,6 +250,31 @@ def handler : Handler := fun op j =>
         ("matrix_shape", jNs [md.matrixShape.1, md.matrixShape.2]),
         ("eval", jArr ((xs.getD []).map (fun x => vecOut m (o.eval (vcOf x)).get))),
         ("eval_dt", jDtRes (o.evalDt md.inDt))]))
+  | "drep" => do
+    let e ← getExpr? (← field? j "e")
+    let lin := (fBool? j "lin").getD true
+    let nrep ← fNat? j "N"
+    let ia ← fInt? j "ia"
+    let oa ← optField? j "oa" getInt?
+    let xs ← (optField? j "xs" (getListOf? getCxs?))
+    let ys ← (optField? j "ys" (getListOf? getCxs?))
+    match build e with
+    | .error kd => some (err kd.name)
+    | .ok o =>
+      match drep lin o nrep ia oa with
+      | .error kd => some (err kd.name)
+      | .ok r =>
+        let md := r.md
+        let n := md.inShape.size
+        let m := md.outShape.size
+        some (ok (jObj [
+          ("cls", jS md.cls.name), ("in_shape", jShape md.inShape), ("out_shape", jShape md.outShape),
+          ("in_dtype", jS md.inDt.name), ("out_dtype", jS md.outDt.name),
+          ("matrix_shape", jNs [md.matrixShape.1, md.matrixShape.2]),
+          ("eval", jArr ((xs.getD []).map (fun x => vecOut m (r.eval (vcOf x)).get))),
+          ("adj", jArr (if lin then (ys.getD []).map (fun y => vecOut n (r.adj (vcOf y)).get) else [])),
+          ("eval_dt", jDtRes (r.evalDt md.inDt)),
+          ("adj_dt", if lin then jDtRes (r.adjCallDt md.outDt) else Json.null)]))
   | "result_type" => do
     let a ← fDT? j "a"
     let k ← getKind? j
